@@ -23,6 +23,14 @@ class GradGeometry(Continuous1D):
     def gradient(self, direction, wrt): return 2 * wrt * direction
 
 
+class GradInvGeometry(Continuous1D):
+    """user geometry with its own derivative AND an inverse map: par2fun(p) = p**3 + p (increasing) ; gradient(direction, wrt) = (3 wrt**2 + 1) * direction ;
+    fun2par is a map that is NOT the identity (here: f / 2 - a deliberately simple, clearly non-identity function; the gradient path must never apply it)"""
+    def par2fun(self, p): return p ** 3 + p
+    def fun2par(self, f): return f / 2
+    def gradient(self, direction, wrt): return (3 * wrt ** 2 + 1) * direction
+
+
 def dom_geom(kind, n):
     if kind == 'default': return n
     if kind == 'Continuous1D': return Continuous1D(n)
@@ -34,6 +42,7 @@ def dom_geom(kind, n):
     if kind == 'KL': return KLExpansion(np.linspace(0, 1, 2 * n), num_modes=n)
     if kind == 'KLfull': return KLExpansion(np.arange(n), num_modes=n)          # as many modes as nodes, default grid: par_dim == fun_dim
     if kind == 'Grad': return GradGeometry(n)
+    if kind == 'GradInv': return GradInvGeometry(n)
     raise ValueError(kind)
 
 
@@ -115,7 +124,7 @@ def gradient(c, kind, dom, m=2, n=2):
     model, f = _model(c, kind, dom, m, n, gd, gr)
     p = c.vec('p', n); d = c.vec('d', m)
     identity_like = dom in ('default', 'Continuous1D', 'Image2D:C', 'Image2D:F')
-    has_grad = dom == 'Grad'
+    has_grad = dom in ('Grad', 'GradInv')
     if kind == 'nograd' or not (identity_like or has_grad):
         c.expect_raise('gradient_refused_when_it_cannot_be_formed', lambda: model.gradient(d, p), note=f"{kind} {dom}")
         return
@@ -133,7 +142,7 @@ def gradient(c, kind, dom, m=2, n=2):
         c.eq('gradient_with_wrt_given_as_function_values', np.asarray(model.gradient(d, gd.par2fun(p), is_wrt_par=False)), spec, tol=1e-4)
         c.eq('gradient_with_wrt_given_as_function_form_cuqiarray', np.asarray(model.gradient(d, CUQIarray(gd.par2fun(p), is_par=False, geometry=gd))), spec, tol=1e-4)
     else:
-        c.expect_raise('wrt_as_function_values_refused_without_fun2par', lambda: model.gradient(d, gd.par2fun(p), is_wrt_par=False))
+        if dom == 'Grad': c.expect_raise('wrt_as_function_values_refused_without_fun2par', lambda: model.gradient(d, gd.par2fun(p), is_wrt_par=False))
     c.eq('gradient_with_direction_given_as_function_values', np.asarray(model.gradient(model.range_geometry.par2fun(d), p, is_direction_par=False)), spec, tol=1e-4)
     ga = model.gradient(CUQIarray(d, geometry=model.range_geometry), p)
     c.holds('cuqiarray_direction_gives_cuqiarray_gradient', isinstance(ga, CUQIarray))
@@ -270,7 +279,7 @@ def jobs(tier):
                 for (m2, n2, N2) in ((3, n + 2 if dom.startswith('Image2D') else 3, 3), (1, n, 1)):
                     J.append(Job(f'forward:{kind}:domain={dom}:m={m2}:n={n2}:N={N2}', lambda c, k=kind, d=dom, m2=m2, n2=n2, N2=N2: representations(c, k, d, m2, n2, N2), 'Pbox', FL, maxpaths=256))
     for kind in ('jacobian', 'gradient', 'linear', 'nograd'):
-        for dom in doms + ['MappedInv', 'KL']:
+        for dom in doms + ['MappedInv', 'KL', 'GradInv']:
             n = 4 if dom.startswith('Image2D') else 2
             if kind == 'jacobian' and dom.startswith('Image2D'): continue
             J.append(Job(f'gradient:{kind}:domain={dom}', lambda c, k=kind, d=dom, n=n: gradient(c, k, d, 2, n), 'Pbox', GL, rtol=1e-4, maxpaths=256))
